@@ -94,4 +94,13 @@ theorem nm_clone : nm "jsonEncoder.clone" = .bytes [106, 115, 111, 110, 69, 110,
 theorem nm_put : nm "putJSONEncoder" = .bytes [112, 117, 116, 74, 83, 79, 78, 69, 110, 99, 111, 100, 101, 114] :=
   congrArg Val.bytes (by decide +kernel)
 
+@[simp] theorem idx_ent0 (e : EEnt) : indexVal e.val (.int 0) = .ok (.int e.level) := id rfl
+@[simp] theorem idx_ent1 (e : EEnt) : indexVal e.val (.int 1) = .ok e.time := id rfl
+@[simp] theorem idx_ent2 (e : EEnt) : indexVal e.val (.int 2) = .ok (.bytes e.name) := id rfl
+@[simp] theorem idx_ent3 (e : EEnt) : indexVal e.val (.int 3) = .ok (.bytes e.message) := id rfl
+@[simp] theorem idx_ent4 (e : EEnt) : indexVal e.val (.int 4) = .ok e.caller := id rfl
+@[simp] theorem idx_ent5 (e : EEnt) : indexVal e.val (.int 5) = .ok (.bytes e.stack) := id rfl
+@[simp] theorem idx_caller0 (e : EEnt) : indexVal e.caller (.int 0) = .ok (.bool e.callerDefined) := id rfl
+@[simp] theorem idx_caller1 (e : EEnt) : indexVal e.caller (.int 1) = .ok (.bytes e.function) := id rfl
+
 end ZapVerif.TransJsonEnc
